@@ -1327,7 +1327,7 @@ pub fn harnesses() -> Vec<HarnessDef> {
   fn b11(t: bool) -> String {
     format!("{} operations from subscribe / unsubscribe / source event / connect over 3 subscribers; cold synchronous (<=2 items) and hot sources behind an upstream tap", if t { 7 } else { 6 })
   }
-  add("c11_publish", vec!["C11"], "publish::<Subject>() + connect()", b11, Box::new(|t| c11_history(ShareKind::PublishLocal, if t { 7 } else { 6 })), 2_000_000, 30_000_000, true);
+  add("c11_publish", vec!["C11", "C03"], "publish::<Subject>() + connect()", b11, Box::new(|t| c11_history(ShareKind::PublishLocal, if t { 7 } else { 6 })), 2_000_000, 30_000_000, true);
   add("c11_share", vec!["C11"], "share()", b11, Box::new(|t| c11_history(ShareKind::ShareLocal, if t { 7 } else { 6 })), 2_000_000, 30_000_000, true);
   add("c11_share_threads", vec!["C11"], "share_threads()", b11, Box::new(|t| c11_history(ShareKind::ShareThreads, if t { 7 } else { 6 })), 2_000_000, 30_000_000, true);
   fn b20(t: bool) -> String {
